@@ -786,6 +786,65 @@ class Top(cohdl.Entity):
             self.w <<= var_two
 ''', tags=["sequential", "variable", "alias_unnamed"], W=[4, 3])
 
+# ---- aliases of one unnamed object that only a NESTED def / lambda of the context refers to (several groups
+#      with different alias counts and spellings: string-hash order differs between the groups and seeds)
+_d("alias_unnamed_nested", '''
+class Top(cohdl.Entity):
+    clk = Port.input(Bit)
+    a = Port.input(BitVector[@W@])
+    p = Port.output(BitVector[@W@])
+    q = Port.output(BitVector[@W@])
+    r = Port.output(BitVector[@W@])
+
+    def architecture(self):
+        stages = [Signal[BitVector[@W@]]()]
+        head@N@, tail@N@ = stages[0], stages[-1]
+        pipe = [Signal[BitVector[@W@]](Null)]
+        alpha, omega_end, mid_point = pipe[0], pipe[-1], pipe[0]
+        store = Variable[BitVector[@W@]](Null)
+        v_first, w2, xx_third, y_4 = store, store, store, store
+
+        @std.sequential(std.Clock(self.clk))
+        def proc():
+            def shift():
+                head@N@.next = self.a
+                return tail@N@
+
+            pick = lambda: omega_end | mid_point | alpha
+
+            def keep():
+                y_4.value = self.a
+                return (xx_third ^ w2) | v_first
+
+            self.p <<= shift()
+            self.q <<= pick()
+            self.r <<= keep()
+''', tags=["sequential", "variable", "alias_unnamed", "nested_function"], W=[4, 2], N=["", "_b"])
+
+# ---- std.prefix / std.name / NamedQualifier used while a context is traced (the prefix counters must start
+#      from scratch in every compilation): tiny, recompiled many times by the "recompile" histories
+_d("prefix_in_sequential", '''
+class Top(cohdl.Entity):
+    clk = Port.input(Bit)
+    a = Port.input(Bit)
+    q = Port.output(Bit)
+    q2 = Port.output(Bit)
+
+    def architecture(self):
+        clk = std.Clock(self.clk)
+        a, q = self.a, self.q
+
+        @std.sequential(clk)
+        def proc():
+            with std.prefix("stage@N@"):
+                tmp = Signal[Bit](name=std.name("tmp"))
+            named = std.NamedQualifier[std.Signal, "nq@N@"][Bit]()
+            tmp <<= a
+            named <<= tmp
+            q.next = tmp
+            self.q2 <<= named
+''', tags=["sequential", "prefix", "named_qualifier", "uniquify"], N=["", "_b"])
+
 # ---- bound methods / callable objects handed directly to cohdl.*_context (helper class with per-instance
 #      signals; two instances in one design, the same class used by a second top of the module)
 _d("bound_method_contexts", '''
